@@ -55,8 +55,8 @@ Definition is_resolved (r : rev) : bool := N.testbit (r_kind r) 2.
 
 (** [StatusReporter.Report]. [has_table]: the revisions table exists;
     [dirty]: what [CheckClean] says; [revs]: [rrw.ReadRevisions] (only read
-    when the table exists). The executor is built without options: linear
-    order, no baseline, no allow-dirty. *)
+    when the table exists). The executor is built with [WithAllowDirty(true)]
+    only (as fixed, C11-status-not-clean-empty-table): linear order, no baseline. *)
 Definition report (has_table dirty : bool) (all : list file) (revs : list rev) : sresult :=
   let applied := if has_table then revs else [] in
   (* first part: Available / Pending, or an early return *)
@@ -64,7 +64,7 @@ Definition report (has_table dirty : bool) (all : list file) (revs : list rev) :
     if negb has_table then
       let av := files_from_last_checkpoint all in inr (av, av)
     else
-      match fst (pending (mkCfg Linear None false dirty) all applied) with
+      match fst (pending (mkCfg Linear None true dirty) all applied) with
       | PNonLinear skipped pend =>
           inl (match last_opt applied with
                | None => SPanic
